@@ -1,6 +1,12 @@
 // lzs / lz5 / null / lh1 / pm1 / pm2 constants, one program per file via SMALL_WHICH
 #include "genlib.h"
+#include <stdlib.h>
+#include <string.h>
 #include SMALL_FILE
+
+// the decoder's state right after its own init function ran (on zeroed memory, as lha_decoder_new provides it)
+static size_t no_input(void *buf, size_t buf_len, void *user_data) { (void) buf; (void) buf_len; (void) user_data; return 0; }
+static int all_equal(const uint8_t *p, size_t n, uint8_t v) { size_t i; for (i = 0; i < n; ++i) if (p[i] != v) return 0; return 1; }
 
 int main(void)
 {
@@ -12,6 +18,12 @@ int main(void)
 	GEN_NAT("lzsThreshold", THRESHOLD);
 	GEN_NAT("lzsMaxRead", lha_lzs_decoder.max_read);
 	GEN_NAT("lzsBlockSize", lha_lzs_decoder.block_size);
+	{
+		LHALZSDecoder *st = calloc(1, sizeof(LHALZSDecoder));
+		GEN_NAT("lzsInitOk", lha_lzs_init(st, no_input, NULL) != 0);
+		GEN_NAT("lzsInitRingAllSpaces", all_equal(st->ringbuf, sizeof(st->ringbuf), ' '));
+		GEN_NAT("lzsInitRingPos", st->ringbuf_pos);
+	}
 #elif SMALL_WHICH == 2  /* lz5 */
 	LHALZ5Decoder *d = 0;
 	GEN_NAT("lz5RingSize", RING_BUFFER_SIZE);
@@ -20,6 +32,13 @@ int main(void)
 	GEN_NAT("lz5Threshold", THRESHOLD);
 	GEN_NAT("lz5MaxRead", lha_lz5_decoder.max_read);
 	GEN_NAT("lz5BlockSize", lha_lz5_decoder.block_size);
+	{
+		LHALZ5Decoder *st = calloc(1, sizeof(LHALZ5Decoder));
+		GEN_NAT("lz5InitOk", lha_lz5_init(st, no_input, NULL) != 0);
+		printf("/-- the ring of lz5_decoder.c right after `lha_lz5_init` (the LArc fill pattern as the code builds it) -/\n");
+		GEN_ARRAY("lz5InitRing", st->ringbuf);
+		GEN_NAT("lz5InitRingPos", st->ringbuf_pos);
+	}
 #elif SMALL_WHICH == 3  /* null */
 	GEN_NAT("nullBlockReadSize", BLOCK_READ_SIZE);
 	GEN_NAT("nullMaxRead", lha_null_decoder.max_read);
@@ -43,6 +62,25 @@ int main(void)
 	GEN_ARRAY("lh1OffsetFdist", offset_fdist);
 	GEN_NAT("lh1MaxRead", lha_lh1_decoder.max_read);
 	GEN_NAT("lh1BlockSize", lha_lh1_decoder.block_size);
+	{
+		LHALH1Decoder *st = calloc(1, sizeof(LHALH1Decoder));
+		unsigned int i;
+		GEN_NAT("lh1InitOk", lha_lh1_init(st, no_input, NULL) != 0);
+		printf("/-- the adaptive tree of lh1_decoder.c right after `lha_lh1_init`: (leaf, child_index, parent, freq, group) per node -/\n");
+		printf("def lh1InitNodes : List (Nat × Nat × Nat × Nat × Nat) := [");
+		for (i = 0; i < NUM_TREE_NODES; ++i)
+			printf("%s%s(%u, %u, %u, %u, %u)", i ? "," : "", i % 6 == 0 ? "\n  " : " ", (unsigned) st->nodes[i].leaf,
+			       (unsigned) st->nodes[i].child_index, (unsigned) st->nodes[i].parent, (unsigned) st->nodes[i].freq, (unsigned) st->nodes[i].group);
+		printf("]\n");
+		GEN_ARRAY("lh1InitLeafNodes", st->leaf_nodes);
+		GEN_ARRAY("lh1InitGroups", st->groups);
+		GEN_NAT("lh1InitNumGroups", st->num_groups);
+		GEN_ARRAY("lh1InitGroupLeader", st->group_leader);
+		GEN_ARRAY("lh1InitOffsetLookup", st->offset_lookup);
+		GEN_ARRAY("lh1InitOffsetLengths", st->offset_lengths);
+		GEN_NAT("lh1InitRingAllSpaces", all_equal(st->ringbuf, sizeof(st->ringbuf), ' '));
+		GEN_NAT("lh1InitRingPos", st->ringbuf_pos);
+	}
 #elif SMALL_WHICH == 5  /* pm1 */
 	LHAPM1Decoder *d = 0;
 	unsigned int i, j;
